@@ -5,6 +5,7 @@ rejection; and, for each rule predicate of part 1, a concrete token list that sa
 import PromVerif.Props.C15Rules
 import PromVerif.Lemmas.OMExLong
 import PromVerif.Lemmas.OMFold4
+import PromVerif.Lemmas.OMDupMixed
 
 namespace PromVerif.Props.C15
 open PromVerif.Py PromVerif.Model PromVerif.Model.ParseCore PromVerif.Model.OMParse PromVerif.Generated.OMParse
@@ -125,6 +126,112 @@ theorem duplicate_label_document (P : Params) (hnan : NaNLiteral P) (hd : Digits
 
 example : errOf (parseLabels false cs!"a=\"1\",b=\"2\",a=\"3\"" true) = some .valueError := by decide
 example : errOf (parseDoc "# TYPE m gauge\nm{a=\"1\",b=\"2\",a=\"3\"} 1\n# EOF\n") = some .valueError := by decide
+
+/-! ### … whatever the spelling of the two name tokens
+
+`duplicate_label_rejected` speaks of rendered blocks, in which a name has ONE spelling (a legacy name bare, any other
+quoted).  `parse_labels` compares the names AFTER `_unquote_unescape`, so `a="1","a"="2"` names `a` twice as well.  Below,
+every item carries its own name token — the canonical one or the quoted one, chosen per item — and the hypothesis is on
+the DECODED names. -/
+
+/-- (token, decoded name, value): the token is the canonical spelling of the name or the quoted spelling `"name"` (for a
+legacy name, the other spelling) -/
+def Spelled (legacy : Bool) (x : STerm) : Prop :=
+  labelNameOK legacy x.2.1 = true ∧ (x.1 = Model.Escape.escapeLabelName x.2.1 ∨ x.1 = qname x.2.1)
+
+theorem spelled_ok {legacy : Bool} {x : STerm} (h : Spelled legacy x) : STermOK legacy x := by
+  obtain ⟨tok, k, v⟩ := x
+  obtain ⟨hk, e | e⟩ := h
+  · simp only at e; subst e; exact tokOK_canonical hk
+  · simp only at e; subst e; exact tokOK_quoted hk
+
+/-- the block `tok1="v1",tok2="v2",…` -/
+def mixBlock (L : List STerm) : Str := sBlock L
+
+/-- **a label block in which one DECODED name occurs twice is rejected, whether the two occurrences are spelled alike or
+not** (bare and quoted, quoted and bare, …): `parse_labels(block, True)` raises ValueError -/
+theorem duplicate_label_mixed_rejected (legacy : Bool) (t : STerm) (r : List STerm) (hok : ∀ x ∈ t :: r, Spelled legacy x)
+    (hdup : ¬ ((t :: r).map (fun x => x.2.1)).Nodup) :
+    parseLabels legacy (mixBlock (t :: r)) true = .error .valueError := by
+  unfold mixBlock
+  rw [parseLabels_om_sitems t r (fun x hx => spelled_ok (hok x hx))]
+  simp only [hdup, ↓reduceIte]
+
+/-- … and with pairwise distinct decoded names the same block is accepted and yields the decoded pairs — so the
+hypothesis above is exactly what makes the difference -/
+theorem distinct_labels_mixed_accepted (legacy : Bool) (t : STerm) (r : List STerm) (hok : ∀ x ∈ t :: r, Spelled legacy x)
+    (hnd : ((t :: r).map (fun x => x.2.1)).Nodup) :
+    parseLabels legacy (mixBlock (t :: r)) true = .ok ((t :: r).map sDec) := by
+  unfold mixBlock
+  rw [parseLabels_om_sitems t r (fun x hx => spelled_ok (hok x hx))]
+  simp only [hnd, ↓reduceIte]
+
+/-- the rendered blocks of `duplicate_label_rejected` are the instance "every token canonical" -/
+theorem exBlock_eq_mixBlock (L : List (Str × Str)) :
+    exBlock L = mixBlock (L.map (fun kv => (Model.Escape.escapeLabelName kv.1, kv.1, kv.2))) := by
+  have hi : ∀ kv : Str × Str, labelItem kv = sItem (Model.Escape.escapeLabelName kv.1, kv.1, kv.2) := fun kv => by
+    rw [labelItem_eq]; rfl
+  have ht : ∀ r : List (Str × Str), tailStr r = tailS (r.map (fun kv => (Model.Escape.escapeLabelName kv.1, kv.1, kv.2))) := by
+    intro r
+    induction r with
+    | nil => rfl
+    | cons kv r ih => rw [tailStr_cons, List.map_cons, tailS_cons, ih, hi]
+  cases L with
+  | nil => rfl
+  | cons kv r => simp only [exBlock, mixBlock, sBlock, List.map_cons, hi, ht]
+
+/-- … the sample line carrying such a block is rejected by `_parse_sample` … -/
+theorem duplicate_label_mixed_line_rejected (P : Params) (n : Str) (hv : Validation.isValidLegacyMetricName n = true)
+    (t : STerm) (r : List STerm) (hok : ∀ x ∈ t :: r, Spelled P.legacy x)
+    (hdup : ¬ ((t :: r).map (fun x => x.2.1)).Nodup) (rest : Str) :
+    parseSample P (n ++ '{' :: (mixBlock (t :: r) ++ '}' :: ' ' :: rest)) = .error .valueError :=
+  parseSample_block_error P hv _ (sBlock_pass t r (fun x hx => spelled_ok (hok x hx)))
+    (duplicate_label_mixed_rejected P.legacy t r hok hdup) rest
+
+/-- … and so is every DOCUMENT that contains such a line, wherever it stands, with ValueError -/
+theorem duplicate_label_mixed_document (P : Params) (hnan : NaNLiteral P) (hd : DigitsNotSpace P) (text : Str)
+    (n : Str) (hv : Validation.isValidLegacyMetricName n = true) (t : STerm) (r : List STerm)
+    (hok : ∀ x ∈ t :: r, Spelled P.legacy x) (hdup : ¬ ((t :: r).map (fun x => x.2.1)).Nodup)
+    (vtok : Str) (ts : Option Str) (ex : Option (List (Str × Str) × Str × Option Str)) (ht : RemTok vtok ts ex)
+    (hmem : n ++ '{' :: (mixBlock (t :: r) ++ '}' :: ' ' :: remText vtok ts ex) ∈ docLines text) :
+    omParse P text = .error .valueError := by
+  apply rule_violation_is_valueError P hnan hd text
+  rw [← omParse_eq]
+  apply omParse_bad_line P text _ hmem
+  intro st
+  have hB := sBlock_pass t r (fun x hx => spelled_ok (hok x hx))
+  obtain ⟨c, t', hl, hc⟩ := legacy_head n hv ('{' :: (mixBlock (t :: r) ++ '}' :: ' ' :: remText vtok ts ex))
+  rw [parseLine_sample P _ c t' hl hc]
+  have hplain := duplicate_label_mixed_line_rejected P n hv t r hok hdup (remText vtok ts ex)
+  have hnh : nhDetect (n ++ '{' :: (mixBlock (t :: r) ++ '}' :: ' ' :: remText vtok ts ex)) = .ok none := by
+    obtain ⟨_, hcs⟩ := legacyName_chars hv (legacyMetric_no_newline hv)
+    have hn : Pass spLbChs n := pass_plain (plainFor_legacy (fun c h => by
+      simp [spLbChs, legacyChar_eq_false h (show isLegacyChar ' ' = false by decide),
+        legacyChar_eq_false h (show isLegacyChar '{' = false by decide)]) hcs)
+    have hB' : Pass rbChs ('{' :: mixBlock (t :: r)) := by
+      have h2 : Pass rbChs ['{'] := pass_plain (by intro c hc; simp at hc; subst hc; exact ⟨by decide, by decide, by decide⟩)
+      have := pass_append h2 hB
+      simpa [mixBlock] using this
+    exact nhDetect_braced n (mixBlock (t :: r)) hn hB' ht
+  rw [hplain, parseNhLine_none P _ hnh]
+  exact stepLine_plain_error P st _
+
+-- the two spellings differ: `a` bare then quoted, quoted then bare; a quoted-only name; three items
+example : mixBlock [(cs!"a", cs!"a", cs!"1"), (cs!"\"a\"", cs!"a", cs!"2")] = cs!"a=\"1\",\"a\"=\"2\"" := by decide
+example : Spelled false (cs!"\"a\"", cs!"a", cs!"2") ∧ Spelled false (cs!"a", cs!"a", cs!"1") :=
+  ⟨⟨by decide, Or.inr (by decide)⟩, ⟨by decide, Or.inl (by decide)⟩⟩
+example : ¬ ([(cs!"a", cs!"a", cs!"1"), (cs!"\"a\"", cs!"a", cs!"2")].map (fun x : STerm => x.2.1)).Nodup := by decide
+example : errOf (parseLabels false cs!"a=\"1\",\"a\"=\"2\"" true) = some .valueError := by decide
+example : errOf (parseLabels false cs!"\"a\"=\"1\",a=\"1\"" true) = some .valueError := by decide
+example : errOf (parseLabels true cs!"a=\"1\",b=\"x\",\"a\"=\"2\"" true) = some .valueError := by decide
+-- two escape spellings of one quoted name (`\s` is no escape sequence: the backslash stays), and blanks around a token
+example : errOf (parseLabels false cs!"\"b\\\\s\"=\"1\",\"b\\s\"=\"2\"" true) = some .valueError := by decide
+example : errOf (parseLabels false cs!"a=\"1\", a =\"2\"" true) = some .valueError := by decide
+-- … in the labels of a sample and of an exemplar, in a whole document
+example : errOf (parseDoc "# TYPE m gauge\nm{a=\"1\",\"a\"=\"2\"} 1\n# EOF\n") = some .valueError := by decide
+example : errOf (parseDoc "# TYPE m counter\nm_total 1 # {t=\"x\",\"t\"=\"y\"} 1\n# EOF\n") = some .valueError := by decide
+example : errOf (parseDoc "# TYPE m counter\nm_total 1 # {\"t\"=\"x\",t=\"x\"} 1\n# EOF\n") = some .valueError := by decide
+example : isOkDoc "# TYPE m counter\nm_total 1 # {\"t\"=\"x\",u=\"x\"} 1\n# EOF\n" = true := by decide
 
 /-! ## exemplars over 128 characters -/
 
